@@ -6,6 +6,9 @@ LOOKUPS = ["lookup_override", "lookup_env", "lookup_file", "lookup_default"]
 META = dict(
     level="other",
     functions=["param_lookup", "lookup_override", "lookup_env", "lookup_file", "lookup_default", "set",
+               "param_register (re-registration path)", "param_set_override", "parsec_mca_param_unset",
+               "parsec_mca_param_reg_int_name / _sizet_name / _string_name", "parsec_mca_param_set_int / _sizet / _string",
+               "parsec_mca_param_lookup_source",
                "process_arg", "add_to_env", "parsec_mca_cmd_line_process_args",
                "parsec_argv_append_nosize / parsec_argv_count / parsec_argv_free (real argv.c compiled in, not under contract of their own: C39)"],
     explanation="Contracts on the real parsec/utils/mca_param.c and mca_param_cmd_line.c.  (A) param_lookup with its four callees "
@@ -19,7 +22,12 @@ META = dict(
                 "order; file <=> a cached value, or the first entry of the file-value list named by the parameter or any synonym, which "
                 "is then cached on the parameter and removed from the list (the others stay in order); default always.  A string parameter overridden with NULL (parsec_mca_param_set_string(i, NULL)) "
                 "resolves, through the real param_lookup and lookup_override, to source OVERRIDE with a NULL value and never hands NULL "
-                "to strdup (job lookup_override.null_string; this was a crash, fixed in /repo 4ba9c5d).  (C) the "
+                "to strdup (job lookup_override.null_string; this was a crash, fixed in /repo 4ba9c5d).  (R) through the real public entry points, on a registry of two existing "
+                "parameters: set_<type> (explicit override), reg_<type>_name of the same name again with a new default (the usual way "
+                "to read a parameter by name), lookup_source, then param_register once more with or without an override value: the "
+                "existing index is returned, an existing override (flag and value) is kept when no new one is supplied and replaced "
+                "when one is, the default is replaced, no file value is invented, and value and source follow override > environment "
+                "> default -- the explicit override keeps top precedence across re-registration.  (C) the "
                 "composition on the real bodies without any replacement (int/size_t, 1 synonym, 2 environment variables, 1-2 file "
                 "entries).  (D) process_arg as an inductive step on any well-formed pre-state (arrays of equal length, distinct names): "
                 "a repeated option turns the value into 'old,new', a new option appends one (name,value) pair to both arrays; and "
@@ -34,6 +42,8 @@ META = dict(
                   "harness asprintf / parsec_os_path are only reachable through the '~/' expansion, which is excluded",
                   "stub strstr (naive substring search) in the lookup harness; CBMC's models of strdup / strcmp / strncmp / strlen / "
                   "malloc / realloc / free",
+                  "stub snprintf (writes the empty string): only builds the variable name of param_register's temporary entry, which "
+                  "is destroyed again on the re-registration path",
                   "stub parsec_show_help (deprecation / read-only warnings are no-ops)",
                   "job lookup_override.null_string only: stub strdup that carries libc's precondition (argument not NULL) as a named "
                   "obligation and copies at most SLEN bytes",
@@ -50,6 +60,9 @@ META = dict(
                  "string values contain no '~' (the '~/' home-directory expansion of param_lookup is not examined) and are at most "
                  "SLEN-1 characters (2 quick / 3 thorough)",
                  "the environment holds at most one value per variable name",
+                 "param_register is examined on the re-registration path only (the name is already registered, same type, names \"a\" / "
+                 "\"b\" without type or component part); first registration (append to the value array, construction of full name and "
+                 "variable name) and synonym registration are not examined",
                  "parsec_init's argv scanning, cmd_line.c's parser, the parameter-file lexer (keyval_parse) and parsec_setenv are not "
                  "examined: the file-value list and the parsed command line are taken as given"],
 )
@@ -106,6 +119,16 @@ def jobs(tier):
                      defines={"NSYN": ns, "NENV": 0, "NFILE": nf, "SLEN": slen},
                      bounded=BN % ("exactly %d synonyms, %d file-value entries; " % (ns, nf) + BS % (slen - 1)),
                      functions=["lookup_file"], timeout=to, mem_gb=8, min_obligations=8))
+    # (R) re-registration through the real public entry points keeps an explicit override on top
+    for t, tn, ri in [(t, tn, ri) for (t, tn) in ((0, "int"), (1, "sizet"), (2, "string")) for ri in ((1, 0) if full else (1,))]:
+        J.append(Job("reregister.%s%s" % (tn, "" if ri else ".first"), "h_lookup.c", entry="h_reregister", unwind=slen + 4,
+                     unwindset=dict(US, **{"strlen.0": 14}),      # strlen("PARSEC_MCA_") in param_register
+                     defines={"NSYN": 0, "NENV": 1, "NFILE": 0, "SLEN": slen, "RTYPE": t, "RIDX": ri},
+                     bounded=BN % ("registry of exactly 2 existing parameters named a and b, the %s one registered again," % ("second" if ri else "first") + " 1 environment variable, empty file-value list"
+                                   + ("; " + BS % (slen - 1) if t == 2 else "")),
+                     functions=["param_register", "parsec_mca_param_reg_%s_name" % tn, "parsec_mca_param_set_%s" % tn,
+                                "param_set_override", "parsec_mca_param_unset", "parsec_mca_param_lookup_source", "param_lookup"],
+                     timeout=to, mem_gb=8, min_obligations=12))
     # (C) composition on the real bodies
     res_shapes = [(1, 2, 1)] + ([(1, 2, 2), (2, 2, 1)] if full else [])
     for ns, ne, nf in res_shapes:
